@@ -52,7 +52,8 @@ def run(R):
                 R.oracle_fail(f"-r file {'exists' if rej_opt in r.after else 'missing'} but " + ("hunks failed" if anyfail else "no hunk failed"), data)
             if dry and rej_opt in r.after:
                 R.oracle_fail("--dry-run wrote a reject file", data)
-            continue
+            if dry or not anyfail or rej_opt not in r.after:
+                continue
         # every "N out of M hunks FAILED/ignored -- saving rejects to file X" names its reject file
         fails = [e for e in flat if e[0] == "failed"]
         named = {e[4] for e in fails if e[4]}
@@ -61,18 +62,28 @@ def run(R):
             if newrej:
                 R.oracle_fail("--dry-run wrote a reject file", data)
             continue
+        # several sections may share one reject file (same target twice, or -r): it holds the rejects of all of them, one after another
+        per_file = {}
         for e in fails:
             if not e[4]:
                 R.oracle_fail("failed hunks reported without saving them to a reject file", data); break
             if e[4] not in r.after:
                 R.oracle_fail(f"reject file {e[4]!r} was announced but does not exist", data); break
-            body = r.after[e[4]][1]
-            try:
-                hs = strict.parse_unified(body)[2] if body.startswith(b"--- ") else strict.parse_context(body)[2]
-                if len(hs) != e[1]:
-                    R.oracle_fail(f"{e[1]} hunks reported as failed, {len(hs)} hunks in the reject file", data); break
-            except strict.Bad as ex:
-                R.oracle_fail(f"reject file is not a valid diff: {ex}", data); break
+            per_file[e[4]] = per_file.get(e[4], 0) + e[1]
+        else:
+            for name, count in per_file.items():
+                body = r.after[name][1]
+                # split at the file headers: '--- x' + '+++ y' (unified) / '*** x' + '--- y' + stars (context)
+                starts = [m.start() for m in re.finditer(rb"(?m)^(--- [^\n]*\n\+\+\+ |\*\*\* [^\n]*\n--- [^\n]*\n\*{15}\n)", body)]
+                chunks = [body[a_:b_] for a_, b_ in zip(starts, starts[1:] + [len(body)])] if starts else [body]
+                try:
+                    n = sum(len(strict.parse_unified(ch)[2] if ch.startswith(b"--- ") else strict.parse_context(ch)[2]) for ch in chunks)
+                    if n != count:
+                        R.oracle_fail(f"{count} hunks reported as failed for {name!r}, {n} hunks in the reject file", data); break
+                except strict.Bad as ex:
+                    R.oracle_fail(f"reject file is not a valid diff: {ex}", data); break
+        if rej_opt is not None:
+            continue
         # no reject file appears (or changes) without failed hunks for it
         for p in r.after:
             if p.endswith(b".rej") and p not in named and (p not in r.before or r.after[p][:2] != r.before[p][:2]):
